@@ -191,6 +191,25 @@ func c07Clean(v any) any {
 	return v
 }
 
+// c07HasNull reports whether v contains a null member anywhere.
+func c07HasNull(v any) bool {
+	switch x := v.(type) {
+	case map[string]any:
+		for _, e := range x {
+			if e == nil || c07HasNull(e) {
+				return true
+			}
+		}
+	case []any:
+		for _, e := range x {
+			if e == nil || c07HasNull(e) {
+				return true
+			}
+		}
+	}
+	return false
+}
+
 func c07Eq(a, b any) bool {
 	if a == nil || b == nil {
 		return a == nil && b == nil
@@ -764,9 +783,25 @@ func c07ClaimContent(t *rapid.T, w *c07World, name string, keep map[string]any, 
 	if l := c07KeyMap(t, "cl", classes); len(l) > 0 {
 		md["labels"] = l
 	}
-	ann := c07KeyMap(t, "ca", classes)
-	if rapid.Bool().Draw(t, "cm.externalName") {
-		ann[c07ExternalName] = "claim-ext-name"
+	// The claim's annotation set: mixed keys (with or without an external name
+	// of its own), none at all, or only Kubernetes-reserved ones (what kubectl
+	// and friends leave behind) - in the last two nothing survives the
+	// reserved-key filter on the way to the XR.
+	ann := map[string]any{}
+	switch rapid.SampledFrom([]string{"mixed", "mixed", "none", "reserved-only"}).Draw(t, "cm.annotationMode") {
+	case "mixed":
+		ann = c07KeyMap(t, "ca", classes)
+		if rapid.Bool().Draw(t, "cm.externalName") {
+			ann[c07ExternalName] = "claim-ext-name"
+		}
+	case "reserved-only":
+		for i, c := 0, rapid.IntRange(1, 3).Draw(t, "nreserved"); i < c; i++ {
+			k := rapid.SampledFrom([]string{"kubectl.kubernetes.io/last-applied-configuration", "sub.kubernetes.io/x", "deep.sub.k8s.io/y", "kubernetes.io/change-cause", "k8s.io/x"}).Draw(t, "reservedkey")
+			ann[k] = "ca-reserved"
+			if classes != nil {
+				classes["reserved"]++
+			}
+		}
 	}
 	if len(ann) > 0 {
 		md["annotations"] = ann
@@ -874,7 +909,7 @@ func c07Case(t *rapid.T, rec *verifkit.Recorder, lateInitOpen bool) {
 		rec.Label("gen:pruned-unknown-fields")
 	}
 
-	nsync := rapid.IntRange(1, 3).Draw(t, "nsync")
+	nsync := rapid.IntRange(1, 4).Draw(t, "nsync")
 	for i := 0; i < nsync; i++ {
 		if i > 0 {
 			cur := s.Get(c07ClaimKey(claimName))
@@ -911,6 +946,18 @@ func c07Case(t *rapid.T, rec *verifkit.Recorder, lateInitOpen bool) {
 				}
 				md := verifsim.Meta(nx)
 				md["labels"], md["annotations"] = verifsim.Meta(xcur)["labels"], verifsim.Meta(xcur)["annotations"]
+				// The XR side may name the external resource itself (a composition
+				// function or an operator annotating the XR); an existing name is
+				// never changed.
+				if c07Str(c07M(md["annotations"])[c07ExternalName]) == "" && rapid.IntRange(0, 2).Draw(t, "xrNamesExternal") == 0 {
+					a := map[string]any{}
+					for k, v := range c07M(md["annotations"]) {
+						a[k] = v
+					}
+					a[c07ExternalName] = "xr-side-ext-name"
+					md["annotations"] = a
+					rec.Label("evolve:xr-side-set-external-name")
+				}
 				if md["labels"] == nil {
 					delete(md, "labels")
 				}
@@ -926,8 +973,25 @@ func c07Case(t *rapid.T, rec *verifkit.Recorder, lateInitOpen bool) {
 			if rapid.IntRange(0, 3).Draw(t, "userActs") > 0 {
 				keep := map[string]any{"resourceRef": c07Spec(cur)["resourceRef"]}
 				nc, _ := c07ClaimContent(t, w, claimName, keep, classes)
-				if en, ok := c07M(verifsim.Meta(cur)["annotations"])[c07ExternalName]; ok {
-					// The external name, once it came back from the XR, stays.
+				_, redrewOwn := c07M(verifsim.Meta(nc)["annotations"])[c07ExternalName]
+				en, had := c07M(verifsim.Meta(cur)["annotations"])[c07ExternalName]
+				if had && !redrewOwn {
+					// An edit that keeps some ordinary annotation may keep the name too.
+					for k := range c07M(verifsim.Meta(nc)["annotations"]) {
+						if !c07Reserved(k) {
+							redrewOwn = rapid.Bool().Draw(t, "userKeepsExternalName")
+							break
+						}
+					}
+				}
+				switch {
+				case had && !redrewOwn:
+					// The user replaced the annotations (kubectl replace / apply of a
+					// manifest without it): the external name that came back from the
+					// XR is gone from the claim.
+					rec.Label("evolve:user-removed-external-name-from-claim")
+				case had:
+					// Otherwise the name that came back from the XR stays.
 					a := c07M(verifsim.Meta(nc)["annotations"])
 					if a == nil {
 						a = map[string]any{}
@@ -981,6 +1045,16 @@ func c07Case(t *rapid.T, rec *verifkit.Recorder, lateInitOpen bool) {
 		if err := c07ReconcilerStatusWrite(s, claimName); err != nil {
 			t.Fatalf("HARNESS: claim status write failed: %v", err)
 		}
+		// structured-merge-diff leaves null where a server-side apply removed the
+		// last member a manager owned in an object (see c07Contains). The CRD's
+		// schema validation refuses null for a non-nullable object, so a real
+		// server would not have stored this write and nothing that follows from
+		// the stored state is reachable: the sync itself was judged (null reads
+		// as absent), the history ends here.
+		if c07HasNull(obs.xrA["spec"]) || c07HasNull(obs.cmA["spec"]) {
+			rec.Label("model:apply-left-null-in-spec(history ends)")
+			break
+		}
 	}
 }
 
@@ -1029,6 +1103,22 @@ func c07Classify(rec *verifkit.Recorder, o c07Obs, step string, classes map[stri
 	if pCM != "" && pCM != pXR {
 		rec.Label("policy:claim-and-xr-differ(revision clause accepts either reading)")
 	}
+	if o.xrB != nil && c07Str(c07M(verifsim.Meta(o.xrB)["annotations"])[c07ExternalName]) != "" {
+		surviving := 0
+		for k := range c07M(verifsim.Meta(o.cmB)["annotations"]) {
+			if !c07Reserved(k) {
+				surviving++
+			}
+		}
+		if surviving == 0 {
+			rec.Label("extname:" + o.syncer + ":xr-has-external-name&&claim-has-no-surviving-annotation")
+			if c07ManagerOwnsExternalName(o.xrB, FieldOwnerXR) {
+				rec.Label("extname:ssa:...and-claim-field-manager-owns-the-xr-annotation")
+			}
+		} else {
+			rec.Label("extname:" + o.syncer + ":xr-has-external-name&&claim-has-surviving-annotation")
+		}
+	}
 	if coll > 0 {
 		rec.Label("nontrivial:machinery-name-collision-at-depth>=2")
 	}
@@ -1052,6 +1142,23 @@ func c07Classify(rec *verifkit.Recorder, o c07Obs, step string, classes map[stri
 			return map[string]any{"syncer": o.syncer, "step": step, "claim": c07StripVolatile(o.cmB), "xr": c07StripVolatile(o.xrB)}
 		})
 	}
+}
+
+// c07ManagerOwnsExternalName reports whether the named field manager owns the
+// external-name annotation of o (managedFields, FieldsV1).
+func c07ManagerOwnsExternalName(o verifsim.Obj, manager string) bool {
+	l, _ := verifsim.Meta(o)["managedFields"].([]any)
+	for _, e := range l {
+		m := c07M(e)
+		if c07Str(m["manager"]) != manager {
+			continue
+		}
+		ann := c07M(c07M(c07M(m["fieldsV1"])["f:metadata"])["f:annotations"])
+		if _, ok := ann["f:"+c07ExternalName]; ok {
+			return true
+		}
+	}
+	return false
 }
 
 func c07StripVolatile(o verifsim.Obj) verifsim.Obj {
@@ -1143,6 +1250,9 @@ type c07Pin struct {
 	xr     verifsim.Obj // nil: first sync creates it
 	syncs  int
 	expect func(t *testing.T, o c07Obs)
+	// between runs before every sync but the first (edits by the user or by
+	// the XR side).
+	between func(t *testing.T, s *verifsim.Sim, i int)
 }
 
 func c07PinClaim(labels, ann, spec, status map[string]any) verifsim.Obj {
@@ -1253,6 +1363,64 @@ func c07Pins() []c07Pin {
 			},
 		},
 		{
+			// The XR's external name, once set, survives a sync from a claim that
+			// has no annotation left after the reserved-key filter: the name came
+			// from the claim at first (so the claim's field manager owns it on the
+			// XR under server-side apply), then the user replaced the claim's
+			// annotations by none (sync 2) and by reserved-only ones (sync 3).
+			name:  "external-name-survives-claim-without-surviving-annotations",
+			claim: c07PinClaim(nil, map[string]any{c07ExternalName: "claim-ext", "example.org/x": "v"}, map[string]any{"foo": "a"}, nil),
+			syncs: 3,
+			between: func(t *testing.T, s *verifsim.Sim, i int) {
+				cur := s.Get(c07ClaimKey("c"))
+				md := verifsim.Meta(cur)
+				delete(md, "annotations")
+				if i == 2 {
+					md["annotations"] = map[string]any{"kubectl.kubernetes.io/last-applied-configuration": "{}", "deep.sub.k8s.io/y": "v"}
+				}
+				delete(cur, "status")
+				if err := c07Put(s, c07ActorUser, cur); err != nil {
+					t.Fatalf("HARNESS: %v", err)
+				}
+			},
+			expect: func(t *testing.T, o c07Obs) {
+				if got := c07Str(c07M(verifsim.Meta(o.xrA)["annotations"])[c07ExternalName]); got != "claim-ext" {
+					t.Errorf("XR external name = %q, want \"claim-ext\"", got)
+				}
+			},
+		},
+		{
+			// Same, with a name the XR side chose itself after the first sync.
+			name:  "xr-side-external-name-survives-claim-without-annotations",
+			claim: c07PinClaim(nil, nil, map[string]any{"foo": "a"}, nil),
+			syncs: 4,
+			between: func(t *testing.T, s *verifsim.Sim, i int) {
+				cm := s.Get(c07ClaimKey("c"))
+				switch i {
+				case 1: // the XR side names the external resource
+					xr := s.Get(c07XRKey(c07Str(c07M(c07Spec(cm)["resourceRef"])["name"])))
+					verifsim.Meta(xr)["annotations"] = map[string]any{c07ExternalName: "xr-side-ext"}
+					delete(xr, "status")
+					if err := c07Put(s, c07ActorXR, xr); err != nil {
+						t.Fatalf("HARNESS: %v", err)
+					}
+				default: // the user drops the name that came back to the claim
+					delete(verifsim.Meta(cm), "annotations")
+					delete(cm, "status")
+					if err := c07Put(s, c07ActorUser, cm); err != nil {
+						t.Fatalf("HARNESS: %v", err)
+					}
+				}
+			},
+			expect: func(t *testing.T, o c07Obs) {
+				if o.xrB != nil && c07Str(c07M(verifsim.Meta(o.xrB)["annotations"])[c07ExternalName]) != "" {
+					if got := c07Str(c07M(verifsim.Meta(o.xrA)["annotations"])[c07ExternalName]); got != "xr-side-ext" {
+						t.Errorf("XR external name = %q, want \"xr-side-ext\"", got)
+					}
+				}
+			},
+		},
+		{
 			name: "manual-policy-claim-revision-reaches-xr-and-xr-revision-stays-off-claim",
 			claim: c07PinClaim(nil, nil, map[string]any{"foo": "a", "resourceRef": xrRef, "compositionUpdatePolicy": "Manual", "compositionRevisionRef": map[string]any{"name": "claim-rev"}},
 				map[string]any{"conditions": condsCM}),
@@ -1291,6 +1459,9 @@ func c07RunPin(t *testing.T, w *c07World, syncer string, p c07Pin) {
 		t.Fatalf("HARNESS: %v", err)
 	}
 	for i := 0; i < p.syncs; i++ {
+		if i > 0 && p.between != nil {
+			p.between(t, s, i)
+		}
 		obs, err := c07Sync(s, syncer, "c")
 		if err != nil {
 			t.Fatalf("Sync #%d: %v\n%s", i+1, err, c07Dump(obs))
